@@ -124,6 +124,34 @@ func (g *UpdGen) val(depth int, wantT string) *UVal {
 	return &UVal{K: "operand", O: &Operand{Kind: "val", Val: genOfType(g.r, t, 1, g.o)}}
 }
 
+// deepSteps follows the containers that are really there: two to four steps into nested maps and
+// lists, the last one naming an existing member (or, in a map, sometimes a new one)
+func (g *UpdGen) deepSteps(v AV) []Step {
+	steps := []Step{}
+	cur := v
+	for len(steps) < 4 {
+		switch {
+		case cur.T == "M" && len(cur.M) > 0:
+			kv := pick(g.r, cur.M)
+			steps = append(steps, Step{Key: kv.K})
+			cur = kv.V
+		case cur.T == "L" && len(cur.L) > 0:
+			i := g.r.Intn(len(cur.L))
+			steps = append(steps, Step{IsIdx: true, Idx: i})
+			cur = cur.L[i]
+		default:
+			if cur.T == "M" && len(steps) > 0 {
+				steps = append(steps, Step{Key: []byte("newk")})
+			}
+			return steps
+		}
+		if len(steps) >= 2 && g.r.Chance(35) {
+			return steps
+		}
+	}
+	return steps
+}
+
 func (g *UpdGen) Gen() []UAction {
 	g.noRead, g.used = map[string]bool{}, map[string]bool{}
 	n := 1 + g.r.Intn(4)
@@ -153,7 +181,11 @@ func (g *UpdGen) Gen() []UAction {
 				if v.T == "L" || (v.T != "M" && g.r.Bool()) {
 					st = Step{IsIdx: true, Idx: g.r.Intn(5)}
 				}
-				plans = append(plans, plan{"set", Operand{Kind: "path", Root: []byte(root), Steps: []Step{st}}})
+				steps := []Step{st}
+				if deep := g.deepSteps(v); len(deep) > 1 && g.r.Chance(60) {
+					steps = deep
+				}
+				plans = append(plans, plan{"set", Operand{Kind: "path", Root: []byte(root), Steps: steps}})
 			}
 		case 4, 5:
 			if root := g.freshRoot(all); root != "" {
@@ -174,6 +206,8 @@ func (g *UpdGen) Gen() []UAction {
 						seen[ix] = true
 						plans = append(plans, plan{"remove", Operand{Kind: "path", Root: []byte(root), Steps: []Step{{IsIdx: true, Idx: ix}}}})
 					}
+				} else if deep := g.deepSteps(v); len(deep) > 1 && g.r.Chance(60) {
+					plans = append(plans, plan{"remove", Operand{Kind: "path", Root: []byte(root), Steps: deep}})
 				} else {
 					plans = append(plans, plan{"remove", Operand{Kind: "path", Root: []byte(root), Steps: []Step{{Key: []byte(pick(g.r, []string{"k", "x", "nokey"}))}}}})
 				}
